@@ -846,8 +846,8 @@ std::vector<Section> AllSections()
     v.push_back(PrevectorSection<4, uint8_t>::Make("prevector<4,uint8_t>", 4, 5));
     v.push_back(PrevectorSection<8, int>::Make("prevector<8,int>", 4, 5));
     v.push_back(BitdequeSection::Make(4, 5));
-    v.push_back(VecDequeSection<int>::Make("VecDeque<int>", 6, 8));
-    v.push_back(VecDequeSection<Tracked>::Make("VecDeque<Tracked>", 6, 8));
+    v.push_back(VecDequeSection<int>::Make("VecDeque<int>", 6, 7));
+    v.push_back(VecDequeSection<Tracked>::Make("VecDeque<Tracked>", 6, 7));
     v.push_back(PoolSection::Make(6, 7));
     return v;
 }
